@@ -155,6 +155,31 @@ def fork_clone(obj, memo: dict):
     return new
 
 
+def find_task(obj, depth: int = 0):
+    """First task object inside process arguments (used by the fault planner only)."""
+    if depth > 4:
+        return None
+    if is_task(obj):
+        return obj
+    if isinstance(obj, functools.partial):
+        return find_task((obj.args, obj.keywords), depth + 1)
+    if isinstance(obj, (tuple, list)):
+        for x in obj:
+            t = find_task(x, depth + 1)
+            if t is not None:
+                return t
+    elif isinstance(obj, dict):
+        for k in ('task',):
+            if k in obj and is_task(obj[k]):
+                return obj[k]
+        for x in obj.values():
+            if isinstance(x, (functools.partial, tuple, list)) or is_task(x):
+                t = find_task(x, depth + 1)
+                if t is not None:
+                    return t
+    return None
+
+
 def snapshot_memory(mem):
     """Copy of one _RUNNER_FORK_MEMORY entry as of fork time."""
     import copy
@@ -236,6 +261,9 @@ class SimProcess:
         else:
             ent.log_handlers = []
         ent.tags['boot'] = simos.spawn_boot_steps if flavour == 'spawn' else 0
+        t = find_task((self._args, self._kwargs))
+        if t is not None:
+            ent.node = getattr(t, 'ident', None)     # lets the fault planner target this worker before run() begins
         self.ent = ent
         sim.worker_count += 1
         sim.note_progress()
